@@ -308,6 +308,14 @@ class DefiniteAssignment:
                     _targets(item.optional_vars, names)
                     w = self._bind(w, names)
             return {None: w}
+        if k == 'case':
+            names = set()
+            for sub in ast.walk(node.ast.pattern):
+                if isinstance(sub, (ast.MatchAs, ast.MatchStar)) and sub.name:
+                    names.add(sub.name)
+                elif isinstance(sub, ast.MatchMapping) and sub.rest:
+                    names.add(sub.rest)
+            return {None: self._bind(world, names)}
         if k == 'handler':
             w = world
             if node.ast.type is not None:
